@@ -72,6 +72,7 @@ type JobWorld struct {
 	quorumSince map[uint64]int64
 	usedTx      map[common.Hash]bool
 	usedTxOrder []common.Hash
+	hooks       []func(*JobWorld, *world.BlockResult)
 }
 
 type execResult struct {
@@ -81,11 +82,13 @@ type execResult struct {
 	log   string
 }
 
-func NewJobWorld(r *core.Run, cfg BridgeCfg) *JobWorld {
+// NewJobWorld builds and bootstraps the world. An optional hook runs after every block, including the bootstrap blocks.
+func NewJobWorld(r *core.Run, cfg BridgeCfg, hooks ...func(*JobWorld, *world.BlockResult)) *JobWorld {
 	restart, crash, jump := cfg.RestartPerMille, cfg.CrashPerMille, cfg.JumpPerMille
 	cfg.RestartPerMille, cfg.CrashPerMille, cfg.JumpPerMille = 0, 0, 0
 	b := NewBridge(r, cfg)
 	w := &JobWorld{Bridge: b, Gov: NewGov(b.Sim), Jobs: map[string]*JobSpec{}, Prev: map[uint64]*QMsg{}, Cur: map[uint64]*QMsg{}, Registered: map[int]map[string][]common.Address{}, seenIDs: map[uint64]bool{}, sigOK: map[string]bool{}, usedTx: map[common.Hash]bool{}}
+	w.hooks = hooks
 	for i, v := range b.Vals {
 		w.Registered[i] = map[string][]common.Address{}
 		for c, k := range v.Eth {
@@ -130,6 +133,9 @@ func (w *JobWorld) Step() *world.BlockResult {
 	}
 	w.snapshotQueues(br.Height)
 	w.digest(br)
+	for _, hk := range w.hooks {
+		hk(w, br)
+	}
 	return br
 }
 
